@@ -1,0 +1,13 @@
+//go:build verif
+
+package websocket
+
+import "github.com/talostrading/sonic"
+
+// VerifAttach puts the stream into StateActive on top of the given transport,
+// as a successful handshake would (this is what the in-package tests do by
+// hand). Only compiled with the `verif` build tag.
+func (s *Stream) VerifAttach(stream sonic.Stream) error {
+	s.state = StateActive
+	return s.init(stream)
+}
